@@ -10,7 +10,7 @@ CONFIG = {'gen': [],
          'recomputed hash, verdict, re-serialisation: model tie); (d) parts: identifiers hex/base64 both directions incl. '
          'padding/whitespace/wrong alphabet, RSAKeyMaterial layout/round trip/every truncation/size-field corruption, CustomKeyInformation '
          "of every length 0..26, version, DN-with-binary format/parse/round trip with ':' ',' '=' non-ASCII and invalid UTF-8 and damaged "
-         'size/hex parts; distinct = distinct input line; non-trivial = implementation output is a non-empty value',
+         'size/hex parts; distinct = distinct input line; non-trivial = implementation output is a non-empty value In half of the single-bit corruption cases the parser object has already parsed the genuine blob and computed/checked its hash before it parses the corrupted one.',
  'assumptions': ['SHA-256 is an arbitrary function H in every theorem; the round-trip clauses assume only that digests are 32 bytes; '
                  "'tampering detected' is proved as: an accepted alteration exhibits a collision of H, or a message containing its own "
                  'digest',
